@@ -1003,6 +1003,12 @@ class ExprMixin:
             t = base.t
         if isinstance(t, TList) and t.elem is None:
             return base
+        if isinstance(t, TOpt):
+            # None is not subscriptable: an obligation in code; in a specification the value is read through (callers guard it)
+            if not st.spec:
+                self.partial(st, z3.Not(sym.opt_is_none(base)), "TypeError", node, label=f"None is not subscriptable: {ast.unparse(node)}")
+            base = sym.opt_val(base)
+            t = base.t
         if not (is_strlike(t) or isinstance(t, TList)):
             raise EngineError(f"slice of {t!r}")
         if base.const is not None and all(
